@@ -114,3 +114,9 @@ claim("C20",
   "Decides structural necessary conditions of C20 for every ConfigMap sequence: each section merge returns the previously effective section on a parse error and the defaults when absent, merges base-then-overlay in the layered order, and gives every node entry a merged strategy (own overlay or cluster copy); syncConfig stores every result unconditionally and only updateCacheIfChanged writes the cache; the selectors return the first matching node entry and the cluster value only when none matches; every section of the NodeSLO spec is produced. It does not decide the field-by-field JSON overlay semantics.",
   "trusts go/ssa and the rule tables in internal/rules/c20.go; util.MergeCfg itself is trusted",
   "DESIGN.md §4 C20")
+
+claim("C02",
+  "custom SSA/AST rules: type rule (no floating point) and effect rule (allow-listed callees, no globals) over the division call tree, comparator key-chain rule with name tiebreak, paired +1/-1 rule for the residual, value-source rule on every runtime assignment, cap-at-request guard rule, index agreement, loop-carried total rule in the top-down refresh",
+  "Decides structural necessary conditions of C02 for every sibling set: the split is integer-only and pure, ties are broken by the unique quota name, every distributed unit comes out of the residual, a runtime is only ever set to the request or the effective minimum max(min, guarantee), siblings are capped at their request with the surplus recycled, each delta goes to its own sibling, and each tree level's own runtime is what the next level (and its min scaling) divides. It does not decide the arithmetic claims (min guarantee, cap, conservation, proportionality) for concrete numbers.",
+  "trusts go/ssa/go/types and the rule tables in internal/rules/c02.go; most of the property is numeric and is declared not decided",
+  "DESIGN.md §4 C02")
